@@ -214,7 +214,7 @@ def run(prog, rep):
         if not ins or not tests or not cfg.edge_dominates(tests[0], 'f', ins[0]):
             rep.violation('R4', loc(amod, fn), f'ABCPropertyGraph.{name}', 'name uniqueness not tested before the insert', 'two elements of this class can share a name')
     nxpg = prog.cls(nxg.NXPG)
-    an = nxpg.methods['add_node']
+    an = nxg.method(prog, nxpg, nxpg.methods['add_node'])
     mixin = prog.cls(nxg.MIXIN)
     lk = set()
     for c in nxg.search_calls(mixin.methods['_find_node']):
@@ -225,7 +225,7 @@ def run(prog, rep):
     for c in walk_no_nested(an):
         if isinstance(c, ast.Call) and call_name(c) == 'node_exists':
             gf = set()
-            for sc in nxg.search_calls(nxpg.methods['node_exists']):
+            for sc in nxg.search_calls(nxg.method(prog, nxpg, nxpg.methods['node_exists'])):
                 for op, f, v in nxg.parse_query(prog, sc.args[1], nxpg.module, nxpg):
                     if op == 'eq':
                         gf.add(f)
@@ -385,7 +385,7 @@ MUTANTS = [
     {'name': 'add-interface-cache-not-updated', 'file': UNS, 'rule': 'R6',
      'find': '                        **kwargs)\n        self._interfaces.append(iff)\n        return iff', 'replace': '                        **kwargs)\n        return iff'},
     {'name': 'facility-index-reset-in-loop', 'file': TP, 'rule': 'R7',
-     'find': '            iindex = 0\n            for iname, ilabels, icapacities in interfaces:\n', 'replace': '            for iname, ilabels, icapacities in interfaces:\n                iindex = 0\n'},
+     'find': '                iindex = 0\n                for iname, ilabels, icapacities in interfaces:\n', 'replace': '                for iname, ilabels, icapacities in interfaces:\n                    iindex = 0\n'},
 ]
 TWINS = [
     {'name': 'uniqueness-through-local-listing', 'file': TP,
